@@ -97,8 +97,17 @@ func VerifC18NewPackage() {
 		}
 	}
 	fset := token.NewFileSet()
-	dp, derr := NewPackage(fset, dfiles, dimp, nil)
-	ap, aerr := ast.NewPackage(fset, afiles, aimp, nil)
+	// universe scope: absent, or holding one predeclared name that unresolved identifiers may hit
+	var duni *Scope
+	var auni *ast.Scope
+	if (vfTier() > 0 || nfiles == 1) && vfChoice("universe", 2) == 1 {
+		un := vfBytes("universeName", 1, "abx")
+		duni, auni = NewScope(nil), ast.NewScope(nil)
+		duni.Insert(&Object{Kind: Typ, Name: un})
+		auni.Insert(&ast.Object{Kind: ast.Typ, Name: un})
+	}
+	dp, derr := NewPackage(fset, dfiles, dimp, duni)
+	ap, aerr := ast.NewPackage(fset, afiles, aimp, auni)
 	vfReach("built")
 
 	vfAssert((derr == nil) == (aerr == nil), "same-error-presence")
